@@ -110,3 +110,9 @@ claim("C11", "exploration", "invariant checking on every annotation produced by 
       "no repeats, no self-interactions, only residues of the analysed model, orientation and sorting, Saenger exactly per the 28-class table, BPh/BR soundness, "
       "class implied by the contacts, one class per ordered residue pair and kind; CSV and JSON list the same interactions.",
       "Saenger asserted for upper-case A/C/G/U/T only; BPh/BR class check is liberal.", "DESIGN.md 3/C11, 5.1")
+
+claim("C05", "exploration", "exhaustive enumeration of a finite transformation family (d<=2) over corpus and lattice structures on the real reader+annotator, differential oracle with margin measurement by a reference model",
+      "Every single transformation and every cross-group pair (rigid motions incl. 23 cube / 60 icosahedral rotations and +-500 A translations, atom order, "
+      "order-preserving relabelings, PDB instead of mmCIF) applied to every corpus structure and to lattice structures with interactions leaves base pairs, "
+      "stackings, BPh, BR, BPSEQ, dot-bracket and extended dot-bracket unchanged up to the renaming; structures with a decision margin below 1e-6 are undecided.",
+      "Format comparisons use harness-emitted texts from one abstract atom list; rigid+format pairs use decimal-exact motions on the coordinate strings.", "DESIGN.md 3/C05, 5.1")
